@@ -10,7 +10,7 @@ from sim.seams import WORLD, install, import_pyscsi
 ID = "C18"
 LEVEL = "exploration"
 COUNTS = {"quick": 6000, "thorough": 600000}
-RULE = ("seeded histories: 1-4 Enums alive at once, built from a dict or from keywords with 0-8 entries (ints with repeated values, "
+RULE = ("seeded histories: 1-4 Enums alive at once, built from a dict, from keywords or by an OpCode object as its service-action table, with 0-8 entries (ints with repeated values, "
         "strings, bytes, tuples, None, nested dicts, OpCode objects; identifier and non-identifier names such as '5.25', 'CD-I'), then "
         "0-30 operations from {attribute read, E[value], keys, add, remove, add existing, remove missing, build another Enum}; after "
         "every operation every live Enum is compared with its dict model (names in order, values, reverse lookup of every value and "
@@ -21,7 +21,7 @@ ASSUMPTIONS = [
     "E[v] must return the first name in insertion order whose value == v, '' if none (property statement); re-adding a removed name appends it at the end, as in a dict",
     "constructing from an empty mapping: Enum({}) is accepted (OpCode relies on it); Enum() with neither dict nor keywords is refused by design and not generated",
 ]
-REQUIRED_PROBES = ["add_ok", "remove_ok", "add_existing_refused", "remove_missing_refused", "duplicate_values", "multi_enum"]
+REQUIRED_PROBES = ["opcode_serviceaction_enum", "add_ok", "remove_ok", "add_existing_refused", "remove_missing_refused", "duplicate_values", "multi_enum"]
 
 NAMES = ["A", "B", "C", "READ_10", "x", "y1", "Zz", "value", "name_", "k9", "5.25", "CD-I", "CD-ROM XA", "Less than 1.8", "a b", "é"]
 RESERVED = {"keys", "add", "remove", "mro", "__getitem__"}
@@ -52,13 +52,14 @@ def gen_value(rng):
 
 
 def generate(rng, idx, tier):
-    ops = [{"op": "new", "form": rng.choice(["dict", "dict", "kw"]),
+    ops = [{"op": "new", "form": rng.choice(["dict", "dict", "kw", "opcode"]),
             "items": [[rng.choice(NAMES), gen_value(rng)] for _ in range(rng.randrange(0, 9))]}]
     for _ in range(rng.choice([0, 2, 5, 10, 20, 30])):
         r = rng.random()
         e = rng.randrange(4)
         if r < 0.1:
-            ops.append({"op": "new", "form": rng.choice(["dict", "kw"]), "items": [[rng.choice(NAMES), gen_value(rng)] for _ in range(rng.randrange(0, 6))]})
+            ops.append({"op": "new", "form": rng.choice(["dict", "kw", "opcode", "opcode"]),
+                        "items": [[rng.choice(NAMES), gen_value(rng)] for _ in range(rng.choice([0, 0, 1, 3, 5]))]})
         elif r < 0.35:
             ops.append({"op": "add", "e": e, "name": rng.choice(NAMES), "value": gen_value(rng)})
         elif r < 0.55:
@@ -144,7 +145,13 @@ def execute(prog):
             if form == "kw" and (not d or not all(k.isidentifier() for k in d)):
                 form = "dict"
             try:
-                E = Enum(**d) if form == "kw" else Enum(d)
+                if form == "opcode":
+                    # the service-action enumeration an OpCode object builds from a mapping (possibly empty)
+                    from pyscsi.pyscsi.scsi_opcode import OpCode
+                    E = OpCode("OP_%d" % i, 0x5E, d).serviceaction
+                    WORLD.probe("opcode_serviceaction_enum")
+                else:
+                    E = Enum(**d) if form == "kw" else Enum(d)
             except Exception as e:  # noqa
                 viol("C18.construct", type(e).__name__, "Enum built from %r" % (list(d),), repr(e)[:100])
                 continue
